@@ -14,7 +14,7 @@ PROPERTY = {
                'later stage': 'per position: untouched | overridden by a value | deleted (value-less !del) - symbolic', 'stages': '2 (quick) / 3 (thorough: the override arrives in stage 3, stage 2 re-adds one placeholder)'},
     'outside': ['placeholders inside !eval code', 'included files (C06)'],
     'per_split_timeout': {'quick': 600, 'thorough': 1800},
-    'wall_budget': {'quick': 900, 'thorough': 3400},
+    'wall_budget': {'quick': 1500, 'thorough': 7000},
 }
 
 SLOTS = ['r0', 'n.d.r1', 'l[1]', 'n.k[0]', 'c.x', 'bd.y']
